@@ -60,7 +60,10 @@ func (s *SessionState) initPPP() {
 		HandlePAP:  s.handlePAPPacket,
 		HandleCHAP: s.handleCHAPPacket,
 		OnEchoReq: func(id uint8, data []byte) {
-			if s.Phase == ppp.PhaseOpen || s.Phase == ppp.PhaseNetwork {
+			// RFC 1661 section 5.8: an Echo-Request received in the LCP Opened
+			// state MUST be answered - also while the link is still being
+			// authenticated. Once the session is tunneled the LNS is the PPP peer.
+			if s.lcp.FSM().State() == ppp.Opened && s.Phase != ppp.PhaseLACTunneled {
 				s.sendLCPEchoReply(id, data)
 			}
 		},
